@@ -344,6 +344,125 @@ pub fn sweep_pair<P: Fl, S: Fl>(job: &Job, out: &mut Out) {
         }
         return;
     }
+    if p.mode == "loops" {
+        // programs that mutate the graph from inside an edge loop / traversal closure
+        use crate::loopx::{loop_kinds, run_trace, script_ops, LCase, SOp, EVERY};
+        let all = shapes::<P>(p.n, p.max_l);
+        let sops: Vec<SOp> = script_ops(p.n).into_iter().filter(|o| matches!(o, SOp::Mut(_))).collect();
+        for (si, conns) in all.iter().enumerate() {
+            if si % job.nshards != job.shard {
+                continue;
+            }
+            out.stats.inc("shapes");
+            for root in 0..p.n as K {
+                for lk in loop_kinds(P::DIRECTED, p.n, root) {
+                    let base = LCase { n: p.n, conns: conns.clone(), root, lk, script: vec![] };
+                    let mut cases = vec![base.clone()];
+                    for o in &sops {
+                        if !matches!(o, SOp::Mut(Op::Connect(..)) | SOp::Mut(Op::TryConnect(..))) {
+                            cases.push(LCase { script: vec![(EVERY, *o)], ..base.clone() });
+                        }
+                        for i in 0..(conns.len().max(1) * 2) {
+                            cases.push(LCase { script: vec![(i, *o)], ..base.clone() });
+                        }
+                    }
+                    for c in cases {
+                        crate::progress::tick();
+                        crate::progress::set_case(|| json!({"kind":"lockstep-loop","flavour":S::NAME,"case":c}).to_string());
+                        let a = run_trace::<P>(&c);
+                        let b = run_trace::<S>(&c);
+                        out.stats.inc("evaluations");
+                        out.stats.inc("transitions");
+                        if !c.script.is_empty() {
+                            out.stats.inc("nontrivial");
+                        }
+                        if a != b {
+                            out.report(Violation {
+                                property: prop.into(),
+                                engine: "lockstep".into(),
+                                flavour: S::NAME.into(),
+                                class: format!("diverge/loop/{}/{}", c.lk.name(), c.script.first().map_or("no-script", |s| s.1.kind())),
+                                what: format!("{}: {} observes {}; {} observes {}", c.program("program"), P::NAME, a, S::NAME, b),
+                                case: json!({"kind":"lockstep-loop","flavour":S::NAME,"n":p.n,"case":c}),
+                                order: (conns.len() * 100 + c.script.len() * 10 + c.script.first().map_or(0, |s| if s.0 == EVERY { 50 } else { s.0 })) as u64,
+                            });
+                        }
+                    }
+                }
+            }
+        }
+        return;
+    }
+    if p.mode == "deep" {
+        // every history of <= max_l operations, unmerged, on both flavours
+        let alpha = alphabet(p.n, 1);
+        let depth = p.max_l;
+        let mut h: Vec<Op> = Vec::new();
+        let mut idx: Vec<usize> = vec![0];
+        let mut first: Vec<usize> = Vec::new();
+        loop {
+            let d = h.len();
+            let i = *idx.last().unwrap();
+            if i >= alpha.len() {
+                idx.pop();
+                if h.pop().is_none() {
+                    break;
+                }
+                first.truncate(h.len());
+                continue;
+            }
+            *idx.last_mut().unwrap() += 1;
+            if d == 1 && (first[0] * alpha.len() + i) % job.nshards != job.shard {
+                continue;
+            }
+            let e = (d + 1) as E;
+            let op = match alpha[i] {
+                Op::Connect(u, v, _) => Op::Connect(u, v, e),
+                Op::TryConnect(u, v, _) => Op::TryConnect(u, v, e),
+                o => o,
+            };
+            crate::progress::tick();
+            let (wp, ws) = match (World::<P>::build(p.n, &h), World::<S>::build(p.n, &h)) {
+                (Ok(a), Ok(b)) => (a, b),
+                _ => continue,
+            };
+            let (rp, rs) = (wp.apply(&op), ws.apply(&op));
+            out.stats.inc("transitions");
+            out.stats.inc("evaluations");
+            out.stats.inc("histories_unmerged");
+            if d >= 2 {
+                out.stats.inc("nontrivial");
+            }
+            let same_ret = match (&rp, &rs) {
+                (Ret::Fail(_), Ret::Fail(_)) => true,
+                (a, b) => a == b,
+            };
+            let (op_, os_) = (wp.observe().map(|o| strip(&o)), ws.observe().map(|o| strip(&o)));
+            let same_obs = match (&op_, &os_) {
+                (Ok(a), Ok(b)) => a == b,
+                (Err(_), Err(_)) => true,
+                _ => false,
+            };
+            if !same_ret || (!rp.is_fail() && !same_obs) {
+                out.report(Violation {
+                    property: prop.into(),
+                    engine: "lockstep".into(),
+                    flavour: S::NAME.into(),
+                    class: format!("diverge/{}{}", op.name(), if op.is_self() { "/u==v" } else { "" }),
+                    what: format!("after [{}] (executed on one object), {}: {} returns {:?} and leaves {:?}; {} returns {:?} and leaves {:?}", show_history(&h), op.show(), P::NAME, rp, op_, S::NAME, rs, os_),
+                    case: json!({"kind":"lockstep-mutate","flavour":S::NAME,"n":p.n,"history":h,"op":op}),
+                    order: (h.len() * 10 + p.n) as u64,
+                });
+                continue;
+            }
+            if !rp.is_fail() && d + 1 < depth {
+                h.push(op);
+                first.push(i);
+                idx.push(0);
+            }
+        }
+        return;
+    }
     // mutate: lock-step BFS over the plain flavour's state space
     let alpha = alphabet(p.n, p.vals);
     let w0 = World::<P>::new(p.n);
@@ -424,6 +543,16 @@ pub fn replay_pair<P: Fl, S: Fl>(prop: &str, case: &Value) -> Vec<Violation> {
         println!("  {} transcript entries", a.len());
         if let Some((label, x, y)) = first_difference(&a, &b) {
             out.report(Violation { property: prop.into(), engine: "lockstep".into(), flavour: S::NAME.into(), class: format!("diverge/{}", label_class(&label)), what: format!("`{}` gives {} on {} but {} on {}", label, x, P::NAME, y, S::NAME), case: case.clone(), order: 0 });
+        }
+        return out.viols.into_values().collect();
+    }
+    if case["kind"] == "lockstep-loop" {
+        let c: crate::loopx::LCase = serde_json::from_value(case["case"].clone()).expect("loop case");
+        let a = crate::loopx::run_trace::<P>(&c);
+        let b = crate::loopx::run_trace::<S>(&c);
+        println!("  {}\n  {}: {}\n  {}: {}", c.program("program"), P::NAME, a, S::NAME, b);
+        if a != b {
+            out.report(Violation { property: prop.into(), engine: "lockstep".into(), flavour: S::NAME.into(), class: format!("diverge/loop/{}/{}", c.lk.name(), c.script.first().map_or("no-script", |s| s.1.kind())), what: format!("{} observes {}; {} observes {}", P::NAME, a, S::NAME, b), case: case.clone(), order: 0 });
         }
         return out.viols.into_values().collect();
     }
